@@ -162,7 +162,7 @@ def handle (j : Json) : Except String Json := do
   match op with
   | "save" =>
     let c ← jobj j "cfg"
-    let cfg : Cfg := { d7fixed := ← jbool c "d7", d29fixed := ← jbool c "d29" }
+    let cfg : Cfg := { d7fixed := ← jbool c "d7", d2fixed := ← jbool c "d2" }
     let args : Args := { frames := ← framesArgOf j, vars := ← varArgOf j "vars", excl := ← varArgOf j "excl",
                          util := utilOf (← jstr j "util") }
     let e ← excOf (← jobj j "exc")
